@@ -15,6 +15,7 @@ META = {
                   "no wait cycle, CloseInvalidatesOwn, cursor in 0..len, unique ids; and checks that each named deviation (the code before each fix commit: CloseSplit, "
                   "NoFindPurge, FindLate, FindNextNested, VerifyRelock, ProbeForever, HasFileStale; and the lock-order mutant CloseFileNested) "
                   "is refuted with a counterexample. Stage B: TLC emits every single call x handle class x buffer/offset class after a fixed setup history, "
+                  "forged handles derived from live ones (upper-bit aliases etc.) on every entry point, archived names of 259/260/261/1024 bytes, "
                   "close-then-any-call pairs, cursor-observer pairs, id-allocation chains after a close, three-archive close histories, multi-sector "
                   "(9000-byte) read/seek histories, sampled pairs, simulated single-thread histories (<= 5 calls) and 2-thread programs, plus the "
                   "counterexample schedules (replayed turn by turn through the verif_sync hook). "
@@ -133,8 +134,17 @@ def _sig_fn(trace_recs):
              "why": b.get("why", "").strip('"')}
         if rec.get("ev") != "Ret":
             return s
-        if rec.get("canary") is False:
-            s["cls"] = "canary"
+        if rec.get("canary") is False or rec.get("nul") is False:
+            s["cls"] = "canary" if rec.get("canary") is False else "no_nul"
+            # which archived name the file handle of an SFileGetFileName call belongs to (length class n<bytes>)
+            fname, pend2 = {}, {}
+            for r in hist:
+                if r.get("ev") == "Inv":
+                    pend2[r["th"]] = r
+                elif r.get("ev") == "Ret" and r.get("fn") == "OpenFileEx" and r.get("ret", 0) > 0 and r["th"] in pend2:
+                    fname[r["ret"]] = pend2[r["th"]]["name"]
+            nm = fname.get(inv["h"], "") if inv else ""
+            s["longname"] = nm.startswith("n") and nm[1:].isdigit() and int(nm[1:]) >= 260
             return s
         if "lockorder" in s["why"]:
             s["cls"] = "lock_order"          # a lock requested while a lock that must come after it was held
@@ -172,6 +182,10 @@ def _sig_fn(trace_recs):
             s["culprit"] = culprit
             s["fill"] = label == "fill"
             s["fn"] = culprit          # which thread's Ret is logged first is incidental
+            return s
+        if inv is not None and inv.get("hf", 0) != 0:
+            s["cls"] = "forged_handle_accepted"      # a value derived from a live handle (upper-bit alias ...) was not refused
+            s["forge"] = inv["hf"]
             return s
         if inv is not None:
             h = inv["h"]
@@ -278,11 +292,16 @@ def run(ctx, cases_override=None):
         "samples": [json.loads(l) for l in open(cases).read().splitlines()[:2]] + recs[1:5],
         "evaluations": res["events"],
         "distinct_nontrivial": ncases,
-        "rule": "one case = one TLC-generated call history / thread program set replayed on the real C API; every case has a non-empty setup history",
+        "rule": "one case = one TLC-generated call history (or set of thread programs) replayed on the real C API and validated by TLC as one "
+                "trace; every case is non-trivial: it has a non-empty setup history (open archive(s), open file, open search) followed by the "
+                "generated calls; families are counted in cases_by_kind (single, pair, closepair, cursorpair, allocchain, threearch, forged, "
+                "longname, lockorder, big, fill, sim, cex:<deviation>)",
         "exhaustive": False,
         "calls_by_function": fns, "results_by_status": sts, "cases_by_kind": kinds,
     }
     assumptions = ["the id allocation scheme is not part of the property (any fresh non-zero id is accepted)",
+                   "buffers without a length argument (SFileGetFileName, SFILE_FIND_DATA.cFileName) are MAX_PATH = 260 chars, as in StormLib",
+                   "lock probing: a table lock counts as held when a helper call that needs it gives no answer for 500 ms while the caller is parked",
                    "file contents <= 40 bytes; oversize read requests are served from a 256-byte guarded buffer",
                    "created and built archives are format V1..V4 (seeded); contents after flush/compact are re-read through the Rust API (Sync)"]
     return core.finish(ctx, "model_checking", cov, assumptions, res["bad"], sig_fn=_sig_fn(recs), trace=trace)
